@@ -303,12 +303,15 @@ let run_ext_ops (text : string) : string =
       match k with
       | 'r' ->
         let i = String.rindex a ':' in
-        tab := ext_register !tab (z_of_dec (String.sub a 0 i))
-            (z_of_int (int_of_string (String.sub a (i + 1) (String.length a - i - 1))));
-        "1"
+        let k = int_of_string (String.sub a (i + 1) (String.length a - i - 1)) in
+        if k = 4 then "0"            (* no equality callback: refused, table unchanged *)
+        else begin
+          tab := ext_register !tab (z_of_dec (String.sub a 0 i)) (z_of_int k);
+          "1"
+        end
       | 'u' -> tab := ext_unregister !tab (z_of_dec a); "-"
       | 'l' -> (match ext_lookup !tab (z_of_dec a) with
-          | Some kk -> let v = int_of_z kk in Printf.sprintf "k%d%d" (if v <> 0 then 1 else 0) (if v <> 0 then 1 else 0)
+          | Some kk -> (match int_of_z kk with 0 -> "k00" | 1 -> "k11" | 2 -> "k0n" | 3 -> "k1n" | _ -> "k??")
           | None -> "none")
       | _ -> "badop") (List.filter (fun s -> s <> "") (String.split_on_char ';' text)))
 
